@@ -90,6 +90,446 @@ fn main() {
             }
         });
     }
+    more_legs(&mut run, &rt, &path, &data, n, thorough);
     let _ = std::fs::remove_file(&path);
     run.done();
+}
+
+// ------------------------------------------------------------------------------------------------------------------
+// Further legs: ranges that cannot be read (past the end of the file, above the reader's per-file size limit) at every
+// position; more requests than the reader accepts in one call; read_at / read_exact_at issued concurrently; readers made
+// by with_security_limits; non-default operation_timeout / max_concurrent_ops; one reader shared by several OS threads.
+// Reference everywhere: the same range read on its own (a slice of the bytes the fixture was written from).
+
+type Req = (String, u64, u64);
+type Reader = AsyncArchiveReader<tokio::fs::File>;
+
+#[derive(Clone)]
+struct Setup {
+    max_extract: usize,
+    max_ops: usize,
+    timeout_s: u64,
+    per_file_limit: Option<u64>, // Some = reader made by with_security_limits with this max_decompressed_size
+    via_limits_ctor: bool,
+}
+
+impl Setup {
+    fn json(&self) -> serde_json::Value {
+        json!({"max_concurrent_extractions": self.max_extract, "max_concurrent_ops": self.max_ops, "operation_timeout_s": self.timeout_s,
+               "constructor": if self.via_limits_ctor { "with_security_limits" } else { "with_config" }, "max_decompressed_size": self.per_file_limit})
+    }
+    fn reader(&self, path: &std::path::Path) -> Result<Reader, String> {
+        let f = tokio::fs::File::from_std(std::fs::File::open(path).map_err(|e| e.to_string())?);
+        let mut cfg = AsyncConfig::default();
+        cfg.max_concurrent_extractions = self.max_extract;
+        cfg.max_concurrent_ops = self.max_ops;
+        cfg.operation_timeout = std::time::Duration::from_secs(self.timeout_s);
+        let tracker = Arc::new(SessionTracker::new());
+        Ok(if self.via_limits_ctor {
+            let mut lim = wow_mpq::SecurityLimits::default();
+            if let Some(l) = self.per_file_limit {
+                lim.max_decompressed_size = l;
+            }
+            AsyncArchiveReader::with_security_limits(f, cfg, tracker, lim)
+        } else {
+            AsyncArchiveReader::with_config(f, cfg, tracker)
+        })
+    }
+}
+
+/// A request "fails on its own" when its range does not lie inside the file (read_exact cannot fill the buffer) or when
+/// its size is above the per-file limit the reader was given (documented: such a request is refused).
+fn fails_alone(r: &Req, len: u64, st: &Setup) -> bool {
+    (r.2 > 0 && r.1.checked_add(r.2).map(|e| e > len).unwrap_or(true)) || st.per_file_limit.map(|l| r.2 > l).unwrap_or(false)
+}
+
+/// Slots of a successful call against the request list; returns false after a violation.
+fn judge_slots(c: &mut vh_common::Case, leg: &str, res: &[(String, Vec<u8>)], reqs: &[Req], data: &[u8]) -> bool {
+    if res.len() != reqs.len() {
+        c.violate(format!("async|{leg}|slot-count"), format!("{} results for {} requests", res.len(), reqs.len()), json!({}));
+        return false;
+    }
+    for (k, ((gn, gd), (wn, off, size))) in res.iter().zip(reqs).enumerate() {
+        c.count("async_slots_compared", 1);
+        let want = &data[*off as usize..(*off + *size) as usize];
+        if gn != wn {
+            c.violate(format!("async|{leg}|slot-name-order"), format!("slot {k} carries {gn:?}, requested {wn:?}"), json!({}));
+            return false;
+        }
+        if gd != want {
+            c.violate(format!("async|{leg}|slot-payload"), format!("slot {k} ({wn}: {size} bytes at {off}) differs from reading the same range on its own (first difference at {})", vh_common::first_diff(gd, want)),
+                      json!({"got": brief(gd), "want": brief(want)}));
+            return false;
+        }
+    }
+    true
+}
+
+fn more_legs(run: &mut Run, rt: &tokio::runtime::Runtime, path: &std::path::Path, data: &[u8], base0: u64, thorough: bool) {
+    let len = data.len() as u64;
+    const SIZES: [u64; 8] = [1, 100, 4096, 48 << 10, (64 << 10) - 1, (64 << 10) + 1, 150 << 10, 300 << 10];
+    const TIMEOUTS: [u64; 3] = [30, 20, 3600];
+
+    // ---- (b) one request that fails on its own, at every position of the list in turn
+    let nb: u64 = if thorough { 240 } else { 36 };
+    for k in 0..nb {
+        let idx = base0 + k;
+        if !run.want(idx) {
+            continue;
+        }
+        let mut rng = run.rng(idx, 0);
+        let nreq = 2 + (k % 7) as usize;
+        let pos = ((k / 7) as usize + rng.usize(nreq)) % nreq;
+        let why = ["starts-inside-ends-past-eof", "starts-at-eof", "starts-past-eof", "above-per-file-limit"][(k % 4) as usize];
+        let st = Setup { max_extract: [1usize, 2, 5, 8][(k % 4) as usize].max(nreq.div_ceil(2)), max_ops: [10usize, 1, 3][(k % 3) as usize], timeout_s: TIMEOUTS[(k % 3) as usize],
+                         per_file_limit: if why == "above-per-file-limit" { Some(200 << 10) } else { None }, via_limits_ctor: why == "above-per-file-limit" || k % 2 == 0 };
+        let mut reqs: Vec<Req> = (0..nreq)
+            .map(|i| {
+                let size = SIZES[rng.usize(if st.per_file_limit.is_some() { 7 } else { SIZES.len() })];
+                (format!("req{i}"), rng.below(len - size), size)
+            })
+            .collect();
+        reqs[pos] = match why {
+            "starts-inside-ends-past-eof" => { let size = SIZES[1 + rng.usize(SIZES.len() - 1)]; (format!("bad{pos}"), len - 1 - rng.below(size - 1), size) }
+            "starts-at-eof" => (format!("bad{pos}"), len, SIZES[rng.usize(SIZES.len())]),
+            "starts-past-eof" => (format!("bad{pos}"), len + 1 + rng.below(1 << 20), SIZES[rng.usize(SIZES.len())]),
+            _ => (format!("bad{pos}"), rng.below(len - (300 << 10)), 300 << 10),
+        };
+        let where_ = if pos == 0 { "first" } else if pos == nreq - 1 { "last" } else { "middle" };
+        let class = format!("async|unreadable-range|{why}|n={nreq}|at={where_}|{}", if st.via_limits_ctor { "limits-ctor" } else { "config-ctor" });
+        let desc = json!({"requests": reqs.iter().map(|r| json!([r.0, r.1, r.2])).collect::<Vec<_>>(), "file_len": len, "unreadable_position": pos, "why": why, "reader": st.json()});
+        run.case(idx, &class, desc, |c| {
+            let got = trap(|| {
+                rt.block_on(async {
+                    // every request on its own, each through a reader of its own
+                    let mut singles: Vec<Result<Vec<(String, Vec<u8>)>, String>> = Vec::new();
+                    for r in &reqs {
+                        let rd = st.reader(path)?;
+                        singles.push(rd.extract_files_concurrent(vec![r.clone()]).await.map_err(|e| e.to_string()));
+                    }
+                    let rd = st.reader(path)?;
+                    let whole = rd.extract_files_concurrent(reqs.clone()).await.map_err(|e| e.to_string());
+                    // the same reader afterwards, asked for the readable requests only
+                    let good: Vec<Req> = reqs.iter().filter(|r| !fails_alone(r, len, &st)).cloned().collect();
+                    let after = rd.extract_files_concurrent(good.clone()).await.map_err(|e| e.to_string());
+                    Ok::<_, String>((singles, whole, good, after))
+                })
+            });
+            c.count("async_calls", 1);
+            c.count("async_unreadable_range_cases", 1);
+            let (singles, whole, good, after) = match got {
+                Err(p) => {
+                    c.violate(format!("async|unreadable-range|panic|{}", p.sig()), format!("extract_files_concurrent panicked: {}", p.msg), json!({}));
+                    return;
+                }
+                Ok(Err(e)) => {
+                    c.inconclusive(format!("fixture could not be opened: {e}"));
+                    return;
+                }
+                Ok(Ok(v)) => v,
+            };
+            for (i, s) in singles.iter().enumerate() {
+                c.count("async_single_request_reads", 1);
+                let must_fail = fails_alone(&reqs[i], len, &st);
+                match s {
+                    Ok(v) if must_fail => {
+                        c.violate(format!("async|unreadable-range|single-request-ok|{why}"), format!("request {i} ({} bytes at {} of a {len}-byte file) asked on its own returned Ok({} slots)", reqs[i].2, reqs[i].1, v.len()), json!({}));
+                        return;
+                    }
+                    Ok(v) => {
+                        if !judge_slots(c, "single-request", v, &reqs[i..i + 1], data) {
+                            return;
+                        }
+                    }
+                    Err(_) if must_fail => c.count("async_single_request_reads_failing_as_expected", 1),
+                    Err(e) => {
+                        c.violate("async|call-fails".to_string(), format!("request {i} asked on its own failed on a readable range: {e}"), json!({}));
+                        return;
+                    }
+                }
+            }
+            // without error skipping: the call fails as a whole iff some request fails on its own
+            match whole {
+                Err(_) => c.count("async_whole_call_err_as_required", 1),
+                Ok(v) => {
+                    c.violate(format!("async|unreadable-range|call-ok|{why}"), format!("the call returned Ok({} slots) although request {pos} fails on its own ({why})", v.len()), json!({"position": pos}));
+                    return;
+                }
+            }
+            c.count("async_calls_after_a_failed_call", 1);
+            match after {
+                Err(e) => c.violate("async|after-failed-call|call-fails".to_string(), format!("after a call that failed ({why} at position {pos}) the same reader fails on readable ranges: {e}"), json!({})),
+                Ok(v) => {
+                    judge_slots(c, "after-failed-call", &v, &good, data);
+                }
+            }
+        });
+    }
+
+    // ---- (c) more requests than the reader takes in one call (2 x max_concurrent_extractions): refused as a whole (documented)
+    // or answered completely; never something in between; the reader answers the largest accepted request right afterwards
+    let base_c = base0 + nb;
+    let nc: u64 = if thorough { 60 } else { 12 };
+    for k in 0..nc {
+        let idx = base_c + k;
+        if !run.want(idx) {
+            continue;
+        }
+        let mut rng = run.rng(idx, 0);
+        let max = [1usize, 2, 5, 3][(k % 4) as usize];
+        let over = 1 + (k / 4 % 3) as usize;
+        let nreq = 2 * max + over;
+        let st = Setup { max_extract: max, max_ops: 10, timeout_s: TIMEOUTS[(k % 3) as usize], per_file_limit: None, via_limits_ctor: k % 2 == 1 };
+        let reqs: Vec<Req> = (0..nreq).map(|i| { let size = SIZES[rng.usize(SIZES.len())]; (format!("req{i}"), rng.below(len - size), size) }).collect();
+        let class = format!("async|over-request-limit|max={max}|n={nreq}");
+        let desc = json!({"requests": reqs.iter().map(|r| json!([r.0, r.1, r.2])).collect::<Vec<_>>(), "reader": st.json(), "accepted_per_call": 2 * max});
+        run.case(idx, &class, desc, |c| {
+            let got = trap(|| {
+                rt.block_on(async {
+                    let rd = st.reader(path)?;
+                    let over = rd.extract_files_concurrent(reqs.clone()).await.map_err(|e| e.to_string());
+                    let fit: Vec<Req> = reqs[..2 * max].to_vec();
+                    let at_limit = rd.extract_files_concurrent(fit.clone()).await.map_err(|e| e.to_string());
+                    Ok::<_, String>((over, fit, at_limit))
+                })
+            });
+            c.count("async_calls", 2);
+            let (over_r, fit, at_limit) = match got {
+                Err(p) => {
+                    c.violate(format!("async|over-request-limit|panic|{}", p.sig()), format!("extract_files_concurrent panicked: {}", p.msg), json!({}));
+                    return;
+                }
+                Ok(Err(e)) => {
+                    c.inconclusive(format!("fixture could not be opened: {e}"));
+                    return;
+                }
+                Ok(Ok(v)) => v,
+            };
+            match over_r {
+                Err(_) => c.count("async_over_limit_calls_refused_as_a_whole", 1),
+                Ok(v) => {
+                    c.count("async_over_limit_calls_answered", 1);
+                    if !judge_slots(c, "over-request-limit", &v, &reqs, data) {
+                        return;
+                    }
+                }
+            }
+            c.count("async_calls_of_exactly_the_accepted_length", 1);
+            match at_limit {
+                Err(e) => c.violate("async|call-fails".to_string(), format!("{} requests (= 2 x max_concurrent_extractions) on readable ranges failed: {e}", fit.len()), json!({})),
+                Ok(v) => {
+                    judge_slots(c, "at-request-limit", &v, &fit, data);
+                }
+            }
+        });
+    }
+
+    // ---- (d) read_at / read_exact_at issued concurrently on one reader (more tasks than max_concurrent_ops)
+    let base_d = base_c + nc;
+    let nd: u64 = if thorough { 120 } else { 24 };
+    for k in 0..nd {
+        let idx = base_d + k;
+        if !run.want(idx) {
+            continue;
+        }
+        let mut rng = run.rng(idx, 0);
+        let ntasks = [3usize, 12, 24][(k % 3) as usize];
+        let st = Setup { max_extract: 5, max_ops: [1usize, 2, 10, 4][(k % 4) as usize], timeout_s: TIMEOUTS[(k % 3) as usize], per_file_limit: None, via_limits_ctor: k % 2 == 1 };
+        // (exact?, offset, size); about one in six reaches past the end of the file
+        let ops: Vec<(bool, u64, u64)> = (0..ntasks)
+            .map(|i| {
+                let size = if rng.chance(1, 10) { 0 } else { SIZES[rng.usize(SIZES.len())] };
+                let off = match rng.usize(6) { 0 => len - rng.below(size.max(2)), 1 if i % 2 == 0 => len + rng.below(4096), _ => rng.below(len - size) };
+                (i % 3 != 2, off, size)
+            })
+            .collect();
+        let class = format!("async|read_at+read_exact_at|tasks={ntasks}|ops={}|{}", st.max_ops, if ops.iter().any(|o| o.2 > 0 && o.1 + o.2 > len) { "some-past-eof" } else { "all-inside" });
+        let desc = json!({"operations": ops.iter().map(|o| json!([if o.0 { "read_exact_at" } else { "read_at" }, o.1, o.2])).collect::<Vec<_>>(), "file_len": len, "reader": st.json()});
+        run.case(idx, &class, desc, |c| {
+            let got = trap(|| {
+                rt.block_on(async {
+                    let rd = Arc::new(st.reader(path)?);
+                    let hs: Vec<_> = ops
+                        .iter()
+                        .map(|&(exact, off, size)| {
+                            let rd = rd.clone();
+                            tokio::spawn(async move {
+                                let mut buf = vec![0xA5u8; size as usize];
+                                let r = if exact { rd.read_exact_at(off, &mut buf).await.map(|_| size as usize) } else { rd.read_at(off, &mut buf).await };
+                                (r.map_err(|e| e.to_string()), buf)
+                            })
+                        })
+                        .collect();
+                    let mut outs = Vec::new();
+                    for h in hs {
+                        outs.push(h.await.map_err(|e| format!("task failed: {e}"))?);
+                    }
+                    Ok::<_, String>(outs)
+                })
+            });
+            let outs = match got {
+                Err(p) => {
+                    c.violate(format!("async|read_at|panic|{}", p.sig()), format!("read_at / read_exact_at panicked: {}", p.msg), json!({}));
+                    return;
+                }
+                Ok(Err(e)) => {
+                    if e.starts_with("task failed") {
+                        c.violate("async|read_at|task-died".to_string(), e, json!({}));
+                    } else {
+                        c.inconclusive(format!("fixture could not be opened: {e}"));
+                    }
+                    return;
+                }
+                Ok(Ok(v)) => v,
+            };
+            for (i, ((r, buf), &(exact, off, size))) in outs.iter().zip(&ops).enumerate() {
+                let inside = size == 0 || off + size <= len; // nothing to read = nothing that can be missing
+                if exact {
+                    c.count("async_read_exact_at_calls", 1);
+                    match r {
+                        Ok(_) if !inside => {
+                            c.violate("async|read_exact_at|ok-past-eof".to_string(), format!("operation {i}: read_exact_at({off}, {size} bytes) of a {len}-byte file returned Ok"), json!({}));
+                            return;
+                        }
+                        Ok(_) => {
+                            c.count("async_read_exact_at_bytes_compared", size);
+                            let want: &[u8] = if size == 0 { &[] } else { &data[off as usize..(off + size) as usize] };
+                            if buf != want {
+                                c.violate("async|read_exact_at|payload".to_string(), format!("operation {i}: read_exact_at({off}, {size} bytes) filled the buffer with bytes that differ from the file (first difference at {})", vh_common::first_diff(buf, want)),
+                                          json!({"got": brief(buf), "want": brief(want)}));
+                                return;
+                            }
+                        }
+                        Err(_) if !inside => c.count("async_read_exact_at_past_eof_failing_as_expected", 1),
+                        Err(e) => {
+                            c.violate("async|read_exact_at|fails-inside-file".to_string(), format!("operation {i}: read_exact_at({off}, {size} bytes) inside a {len}-byte file failed: {e}"), json!({}));
+                            return;
+                        }
+                    }
+                } else {
+                    c.count("async_read_at_calls", 1);
+                    match r {
+                        Err(e) => {
+                            // a plain read never fails for lack of bytes: it reports how many there were
+                            c.violate("async|read_at|fails".to_string(), format!("operation {i}: read_at({off}, buffer of {size}) failed: {e}"), json!({}));
+                            return;
+                        }
+                        Ok(n) => {
+                            let n = *n as u64;
+                            let avail = len.saturating_sub(off).min(size);
+                            if n > avail || (n == 0 && avail > 0) {
+                                c.violate("async|read_at|count".to_string(), format!("operation {i}: read_at({off}, buffer of {size}) reported {n} bytes, the file holds {avail} for that buffer"), json!({}));
+                                return;
+                            }
+                            if n < avail {
+                                c.count("async_read_at_short_reads", 1);
+                            }
+                            c.count("async_read_at_bytes_compared", n);
+                            let want = &data[off.min(len) as usize..(off.min(len) + n) as usize];
+                            if &buf[..n as usize] != want {
+                                c.violate("async|read_at|payload".to_string(), format!("operation {i}: read_at({off}, buffer of {size}) delivered {n} bytes that differ from the file"), json!({"got": brief(&buf[..n as usize]), "want": brief(want)}));
+                                return;
+                            }
+                        }
+                    }
+                }
+            }
+        });
+    }
+
+    // ---- (e) one reader shared by several OS threads, each driving its own (current-thread) runtime: calls of
+    // extract_files_concurrent and read_exact_at overlap for real; every thread's slots are judged on their own
+    let base_e = base_d + nd;
+    let ne: u64 = if thorough { 40 } else { 8 };
+    for k in 0..ne {
+        let idx = base_e + k;
+        if !run.want(idx) {
+            continue;
+        }
+        let mut rng = run.rng(idx, 0);
+        let nthreads = 2 + (k % 3) as usize;
+        let rounds = if thorough { 12 } else { 4 };
+        let st = Setup { max_extract: [2usize, 5, 8][(k % 3) as usize], max_ops: [10usize, 2][(k % 2) as usize], timeout_s: 30, per_file_limit: None, via_limits_ctor: k % 2 == 1 };
+        let lists: Vec<Vec<Req>> = (0..nthreads)
+            .map(|t| (0..1 + rng.usize(2 * st.max_extract)).map(|i| { let size = SIZES[rng.usize(SIZES.len())]; (format!("t{t}r{i}"), rng.below(len - size), size) }).collect())
+            .collect();
+        let class = format!("async|reader-shared-by-os-threads|threads={nthreads}|max={}|ops={}", st.max_extract, st.max_ops);
+        let desc = json!({"os_threads": nthreads, "rounds": rounds, "requests_per_thread": lists.iter().map(|l| l.len()).collect::<Vec<_>>(), "reader": st.json(),
+                          "what": "one AsyncArchiveReader behind an Arc; every OS thread runs its own current-thread runtime and calls extract_files_concurrent (odd rounds: read_exact_at per request) on it"});
+        run.case(idx, &class, desc, |c| {
+            let rd = match st.reader(path) {
+                Ok(r) => Arc::new(r),
+                Err(e) => {
+                    c.inconclusive(format!("fixture could not be opened: {e}"));
+                    return;
+                }
+            };
+            let barrier = Arc::new(std::sync::Barrier::new(nthreads));
+            type Round = Result<Vec<(String, Vec<u8>)>, String>;
+            let outs: Vec<Result<Vec<Round>, String>> = std::thread::scope(|sc| {
+                let hs: Vec<_> = lists
+                    .iter()
+                    .map(|list| {
+                        let (rd, barrier) = (rd.clone(), barrier.clone());
+                        sc.spawn(move || {
+                            let rt = tokio::runtime::Builder::new_current_thread().enable_all().build().map_err(|e| e.to_string());
+                            barrier.wait();
+                            let rt = rt?;
+                            trap(|| {
+                                (0..rounds)
+                                    .map(|round| {
+                                        rt.block_on(async {
+                                            if round % 2 == 0 {
+                                                rd.extract_files_concurrent(list.clone()).await.map_err(|e| e.to_string())
+                                            } else {
+                                                let mut v = Vec::new();
+                                                for (n, off, size) in list {
+                                                    let mut buf = vec![0u8; *size as usize];
+                                                    rd.read_exact_at(*off, &mut buf).await.map_err(|e| e.to_string())?;
+                                                    v.push((n.clone(), buf));
+                                                }
+                                                Ok(v)
+                                            }
+                                        })
+                                    })
+                                    .collect::<Vec<Round>>()
+                            })
+                            .map_err(|p| format!("panic:{}", p.sig()))
+                        })
+                    })
+                    .collect();
+                hs.into_iter().map(|h| h.join().unwrap_or_else(|_| Err("thread died".into()))).collect()
+            });
+            for (t, o) in outs.into_iter().enumerate() {
+                match o {
+                    Err(e) if e.starts_with("panic:") || e == "thread died" => {
+                        c.violate(format!("async|shared-by-os-threads|{e}"), format!("thread {t} of {nthreads} panicked while the reader was shared"), json!({}));
+                        return;
+                    }
+                    Err(e) => {
+                        c.inconclusive(format!("no runtime: {e}"));
+                        return;
+                    }
+                    Ok(rounds_out) => {
+                        for (round, r) in rounds_out.into_iter().enumerate() {
+                            c.count("async_calls", 1);
+                            c.count("async_shared_reader_thread_rounds", 1);
+                            match r {
+                                Err(e) => {
+                                    c.violate(format!("async|shared-by-os-threads|call-fails|{}", if round % 2 == 0 { "extract_files_concurrent" } else { "read_exact_at" }),
+                                              format!("thread {t}, round {round}: readable ranges failed while other threads used the same reader: {e}"), json!({}));
+                                    return;
+                                }
+                                Ok(v) => {
+                                    if !judge_slots(c, "shared-by-os-threads", &v, &lists[t], data) {
+                                        return;
+                                    }
+                                }
+                            }
+                        }
+                    }
+                }
+            }
+        });
+    }
 }
